@@ -139,6 +139,23 @@ CLAIMED = {
         engine='sqlvc',
         design_ref='7/C06',
     ),
+    'C05': dict(
+        text='Children statement of mark_job_complete and recompute statement of commit_batch_update verified pointwise for all rows: exactly the children / the id range are touched, n_pending_parents is decremented resp. recomputed '
+        'as the number of non-terminal parents (aggregates shown to range over exactly the job\'s edges with the right summands), Ready iff no pending parent remains, cancelled set iff a terminal parent did not succeed; '
+        '_create_jobs fragments: Ready only in update 1 without parents, n_pending_parents = #parents, one job_parents row per parent.',
+        note=COMMON_NOTE + 'Assumed: each procedure/trigger invocation is atomic (serialisable isolation, justified by the lock-discipline obligations); MySQL NULL/boolean semantics as encoded in vc/sqlvc.py; integer column widths sufficient; SQL cannot be executed in this sandbox so counter-models are rows (VIOLATION ... no-failing-input-found). ' + 'Pointwise obligations lift to invariant N by paper lemmas L1/L2. _create_jobs is verified on two fragments of its loop body (inputs symbolic, rest dropped).',
+        technique='procedure contracts (pointwise statement semantics, aggregate predicates) on real SQL + fragment contracts on real Python, sqlvc/pyvc -> z3',
+        engine='sqlvc+pyvc',
+        design_ref='7/C05',
+    ),
+    'C41': dict(
+        text='_create_jobs inserts jobs of later updates Pending (fragment contract); every job-selection query requires state Ready; commit_batch_update writes nothing unless the staged count equals the declared one and is the only writer of committed; '
+        'cancel_job_group transfers only rows of committed updates (pointwise aggregate obligation). The obligation that the children statement of mark_job_complete readies only committed children FAILS on the unchanged tree and is listed as known finding F1.',
+        note=COMMON_NOTE + 'Assumed: each procedure/trigger invocation is atomic (serialisable isolation, justified by the lock-discipline obligations); MySQL NULL/boolean semantics as encoded in vc/sqlvc.py; integer column widths sufficient; SQL cannot be executed in this sandbox so counter-models are rows (VIOLATION ... no-failing-input-found). ' + 'One known finding (known_findings.json). Staging rows of never-committed updates and job groups of uncommitted updates are not covered.',
+        technique='procedure/fragment contracts on real SQL and Python, sqlvc/pyvc -> z3, with a recorded known finding',
+        engine='sqlvc+pyvc',
+        design_ref='7/C41',
+    ),
 }
 
 NOT_YET = 'not yet brought within the verifier\'s reach in this build (planned in DESIGN.md section 7); no claim is made'
